@@ -143,6 +143,29 @@ func init() {
 }
 
 func genC12(t *rapid.T) C12Case {
+	if rapid.IntRange(0, 11).Draw(t, "seek") == 0 {
+		// one content next to a size transition of the implementation (seek_test.go): where a symbol chosen too
+		// large, or check words lost at a size change, would show
+		pick := func(n int) int { return rapid.IntRange(0, n-1).Draw(t, "seekpick") }
+		switch rapid.IntRange(0, 3).Draw(t, "seeksym") {
+		case 0:
+			if cs := genQRSeek(t); len(cs) > 0 {
+				return C12Case{Sym: "qr", QR: &cs[pick(len(cs))]}
+			}
+		case 1:
+			if cs := genDMSeek(t); len(cs) > 0 {
+				return C12Case{Sym: "datamatrix", DM: &cs[pick(len(cs))]}
+			}
+		case 2:
+			if cs := genAztecSeek(t); len(cs) > 0 {
+				return C12Case{Sym: "aztec", Aztec: &cs[pick(len(cs))]}
+			}
+		default:
+			if cs := genPDFSeek(t); len(cs) > 0 {
+				return C12Case{Sym: "pdf417", PDF: &cs[pick(len(cs))]}
+			}
+		}
+	}
 	switch rapid.IntRange(0, 9).Draw(t, "sym") {
 	case 0, 1, 2:
 		q := genQRCase(t)
